@@ -255,6 +255,11 @@ def passN (cfg : Cfg) (envOf : Nat → Env) (hasCb : Bool) (fuel : Nat) (t : Rat
 
 def maxTimeout (cfg : Cfg) (alive : List Nat) : Rat := (cfg.sliceN : Rat) / (alive.length : Rat)
 
+/-- `set(procs)`: one entry per distinct process (which order Python iterates it in is `order`'s business) -/
+def dedup : List Nat → List Nat
+  | [] => []
+  | x :: xs => if x ∈ dedup xs then dedup xs else x :: dedup xs
+
 def stillAlive (alive gone : List Nat) : List Nat := alive.filter fun p => !(gone.contains p)
 
 /-- `while alive:` with a timeout. `order k l` = the order in which Python iterates the set `l`
@@ -303,7 +308,7 @@ def waitProcs (cfg : Cfg) (envOf : Nat → Env) (procs : List Nat) (timeout : Op
     Except Outcome (WP × List Nat) :=
   if negative timeout then .error .valueError
   else
-    let alive := procs.eraseDups
+    let alive := dedup procs
     match timeout with
     | some τ =>
       match whileT cfg envOf hasCb fuel order (w.now + τ) fuel alive w τ with
